@@ -2,6 +2,7 @@
 // structural summary; block addressing.
 #include "gen.h"
 
+#include <cstring>
 #include <algorithm>
 #include <functional>
 #include <sstream>
@@ -26,6 +27,8 @@ XmlKnobs draw_knobs(Rng& rng)
     k.rate_before_invariant = rng.chance(0.25);
     if (rng.chance(0.06))
         k.big_text_lines = rng.range(100, 900);
+    if (rng.chance(0.06))
+        k.imports_elem = rng.range(1, 2);
     // the reader accepts <project> as the root element as well as <nta>
     k.project_root = rng.chance(0.05);
     if (k.project_root)
@@ -39,7 +42,7 @@ std::string knobs_str(const XmlKnobs& k)
     os << "decl=" << k.xml_decl << " doctype=" << k.doctype << " indent=" << k.indent << " sq=" << k.single_quotes
        << " coords=" << k.coords << " shuffle=" << k.attr_shuffle << " esc=" << k.text_escape
        << " comments=" << k.comments_between << " empty=" << k.empty_elems << " pad=" << k.pad_text << " crlf=" << k.crlf
-       << " project=" << k.project_root << " big=" << k.big_text_lines << " rate_first=" << k.rate_before_invariant << " comment_in_text=" << k.comment_in_text;
+       << " imports=" << k.imports_elem << " project=" << k.project_root << " big=" << k.big_text_lines << " rate_first=" << k.rate_before_invariant << " comment_in_text=" << k.comment_in_text;
     return os.str();
 }
 
@@ -284,6 +287,10 @@ std::string render_xml(const Model& m, const XmlKnobs& k, Rng& rng, std::map<std
         x.os << "\n";
     x.os << (k.project_root ? "<project>" : "<nta>");
     x.level = 1;
+    if (k.imports_elem) {
+        x.nl();
+        x.os << (k.imports_elem == 1 ? "<imports>import \"zlib.xml\";</imports>" : "<imports/>");
+    }
     {
         std::string g = join_decls(m.gdecls);
         if (k.big_text_lines > 0) {
@@ -591,6 +598,32 @@ std::string expected_summary(const Model& m, bool)
                 os << e.sync.text.back();
             os << " assign=" << tagstr(e.assign.tags) << " prob=" << tagstr(e.prob.tags) << "\n";
         }
+    }
+    if (!m.chan_priority.empty() && m.system_raw.empty()) {
+        // "chan priority a < b , default;" -> "chanprio a < b , default" (array channels by their name)
+        std::string body = m.chan_priority.substr(std::strlen("chan priority "));
+        if (!body.empty() && body.back() == ';')
+            body.pop_back();
+        os << "chanprio";
+        std::string word;
+        auto flush = [&] {
+            if (!word.empty()) {
+                size_t br = word.find('[');
+                os << " " << (br == std::string::npos ? word : word.substr(0, br));
+                word.clear();
+            }
+        };
+        for (char ch : body) {
+            if (ch == ' ')
+                flush();
+            else if (ch == '<' || ch == ',') {
+                flush();
+                os << " " << ch;
+            } else
+                word += ch;
+        }
+        flush();
+        os << "\n";
     }
     size_t sys_index = 0;
     int prio = 0;
